@@ -12,13 +12,14 @@ import (
 )
 
 // C16 (semantic layer): re-reads the Go source and emits, as terms of the small languages of Model/C16Syntax.lean,
-//   * every method of an in-repo type whose request carries an `Authority` field, statement by statement (guard
+//   - every method of an in-repo type whose request carries an `Authority` field, statement by statement (guard
 //     EXPRESSIONS: which two values are compared and how; helper methods followed one level);
-//   * the router dispatch: Msg services (methods of the generated MsgServer interfaces), RegisterMsgServer call sites with
+//   - the router dispatch: Msg services (methods of the generated MsgServer interfaces), RegisterMsgServer call sites with
 //     the concrete type registered, struct types with their embedded fields (for method promotion), the crosschain
 //     per-chain routes;
-//   * what ValidateBasic of each authority message does with the authority;
-//   * the raw-store-update loop(s) of MsgUpdateStore, step by step in source order.
+//   - what ValidateBasic of each authority message does with the authority;
+//   - the raw-store-update loop(s) of MsgUpdateStore, step by step in source order.
+//
 // Anything that is not recognised is emitted as `.other` / `.work`, so that a theorem, not the translator, breaks.
 func init() { register(extractC16Sem) }
 
